@@ -349,6 +349,58 @@ AttAnswer(e, v, c) ==
 ObsAttachments == \E src \in Full, v \in Vendors \cup {NoStr}, c \in Conforms :
               Observe("obs_attachments", <<src, v, c>>, AttAnswer(reg[src], v, c))
 
+(* ---- expressions, requests, responses, events -------------------------------------------*)
+Fns    == {<<"k", 1>>, <<"k", 2>>, <<"n", "f">>, <<"n", "1">>}
+Params == {<<"k", 1>>, <<"k", 2>>, <<"n", "p">>}
+(* parameter lists: <<parameter, register holding the value>> *)
+ParamLists == {<< >>} \cup {<< <<q, r>> >> : q \in Params, r \in Full}
+              \cup {<< <<x[1], x[2]>>, <<x[3], x[4]>> >> : x \in Params \X Full \X Params \X Full}
+PVals(ps) == [i \in 1..Len(ps) |-> <<ps[i][1], reg[ps[i][2]]>>]
+Notes == {"", "n"}
+Dates == {NoDate, "int", "frac", "neg"}
+BuildExpressionA == \E dst \in Reg, f \in Fns : \E ps \in ParamLists :
+      Call("expression", dst, <<f, ps>>, Ok(ExprEnv(f, PVals(ps))))
+BuildRequestA == \E dst \in Reg, f \in {<<"k", 1>>, <<"n", "f">>}, id \in 1..2, note \in Notes, d \in Dates : \E ps \in ParamLists :
+      /\ Len(ps) <= 1 /\ (Len(ps) = 1 => ps[1][1] \in {<<"k", 1>>, <<"n", "p">>})
+      /\ Call("request", dst, <<f, ps, id, note, d>>, Ok(RequestEnv(f, PVals(ps), id, note, d)))
+BuildResponseA == \E dst \in Reg, variant \in {"success", "failure", "early"}, id \in 1..2 :
+      \E payload \in {reg[r] : r \in Full} \cup {KV(KvOk), KV(KvUnknown)} :
+      Call("response", dst, <<variant, id, payload>>, Ok(ResponseEnv(variant, id, payload)))
+BuildEventA == \E dst \in Reg, rc \in Full, id \in {1}, note \in Notes, d \in Dates :
+      Call("event", dst, <<rc, id, note, d>>, Ok(EventEnv(reg[rc], id, note, d)))
+(* one part added, removed or retagged *)
+MalformKinds == {"drop_body", "second_body", "retag_subject", "add_error", "add_result", "drop_result", "drop_error",
+                 "second_note", "note_not_string", "date_not_date", "subject_other_kv", "drop_content", "second_content", "salted_body"}
+Malformed(e, kind) ==
+  LET dropPred(kv) == FoldAdd(Subject(e), Assertions(e) \ AssertionsWithPredicate(e, KV(kv))) IN
+  CASE kind = "drop_body"      -> dropPred(KvBody)
+    [] kind = "second_body"    -> AddAssertion(e, KV(KvBody), FnLeaf(<<"k", 2>>))
+    [] kind = "retag_subject"  -> ReplaceSubject(e, IF IsLeaf(Subject(e)) /\ Subject(e)[2][1] = "evid"
+                                                     THEN Leaf(<<"reqid", 1>>) ELSE Leaf(<<"evid", 1>>))
+    [] kind = "add_error"      -> AddAssertion(e, KV(KvError), Str("x"))
+    [] kind = "add_result"     -> AddAssertion(e, KV(KvResult), Str("x"))
+    [] kind = "drop_result"    -> dropPred(KvResult)
+    [] kind = "drop_error"     -> dropPred(KvError)
+    [] kind = "second_note"    -> AddAssertion(AddAssertion(e, KV(KvNote), Str("n")), KV(KvNote), Str("m"))
+    [] kind = "note_not_string" -> AddAssertion(dropPred(KvNote), KV(KvNote), KV(1))
+    [] kind = "date_not_date"  -> AddAssertion(dropPred(KvDate), KV(KvDate), Str("x"))
+    [] kind = "subject_other_kv" -> ReplaceSubject(e, Leaf(<<"respunknown", KvOk>>))
+    [] kind = "drop_content"   -> dropPred(KvContent)
+    [] kind = "second_content" -> AddAssertion(e, KV(KvContent), Str("x"))
+    [] kind = "salted_body"    -> LET B == AssertionsWithPredicate(e, KV(KvBody)) IN
+                                  IF B = {} THEN e
+                                  ELSE Val(AddAssertionEnvSalted(dropPred(KvBody), CHOOSE b \in B : TRUE, <<FreshId, 1>>))
+MalformA == \E dst \in Reg, src \in Full, kind \in MalformKinds :
+      /\ Malformed(reg[src], kind) # reg[src]
+      /\ Call("malform", dst, <<src, kind>>, Ok(Malformed(reg[src], kind)))
+ObsParse == \E src \in Full :
+      \/ \E expected \in Fns \cup {NoFn} :
+           \/ Observe("obs_parse", <<src, "expression", expected>>, ParseExpression(reg[src], expected))
+           \/ Observe("obs_parse", <<src, "request", expected>>, ParseRequest(reg[src], expected))
+      \/ Observe("obs_parse", <<src, "response", NoFn>>, ParseResponse(reg[src]))
+      \/ Observe("obs_parse", <<src, "event", NoFn>>, ParseEvent(reg[src]))
+ExprBuildFam == BuildExpressionA \/ BuildRequestA \/ BuildResponseA \/ BuildEventA
+
 (* ---- observations ------------------------------------------------------------------*)
 ObsStructure == \E src \in Full : Observe("obs_structure", <<src>>, StructureFacts(reg[src]))
 ObsWalk == \E src \in Full :
